@@ -70,16 +70,16 @@ def run_hook(db, fn):
     for p in fn['params']:
         t = p['t']
         if not bound and ('_input<' in t) and t.startswith('const tao::pegtl::') and t.endswith('&'):
-            f.env[p['id']] = inp; bound = True
+            EnvView(st, f.fid)[p['id']] = inp; bound = True
         elif not bound and is_input_type(t):
-            f.env[p['id']] = inp; bound = True
+            EnvView(st, f.fid)[p['id']] = inp; bound = True
         elif 'inputerator' in t:
-            f.env[p['id']] = Cur('E')
+            EnvView(st, f.fid)[p['id']] = Cur('E')
         elif t.endswith('&'):
             o = Obj(st.alloc({'__type': t, '__state': True})); mon.state_index[o.addr] = k; k += 1
-            f.env[p['id']] = o
+            EnvView(st, f.fid)[p['id']] = o
         else:
-            f.env[p['id']] = Unknown('param')
+            EnvView(st, f.fid)[p['id']] = Unknown('param')
     rows = collections.Counter()
     for comp in ex.run_fn(fn, f, st):
         s = comp[-1]
